@@ -1244,6 +1244,19 @@ class Interp:
     def e_GeneratorExp(self, node, env):
         # python evaluates the outermost iterable when the generator is created
         first = self.eval(node.generators[0].iter, env)
+        from .heapmodel import SAbstractSet
+        if isinstance(first, SAbstractSet):
+            # (f(a) for a in <abstract set>): the same members, seen through the element expression
+            if len(node.generators) != 1 or node.generators[0].ifs:
+                raise Unsupported('filtered / nested generator over an abstract set', node)
+            g = node.generators[0]
+            frozen = Env(dict(env.vars), env.parent, env.module)
+
+            def element(interp, n, _base=first.element):
+                cenv = Env({}, frozen, frozen.module)
+                interp.assign(g.target, _base(interp, n), cenv)
+                return interp.eval(node.elt, cenv)
+            return SAbstractSet(first.member, first.label, element=element)
         return LazyGen(self, node, env, first)
 
     def e_SetComp(self, node, env):
